@@ -9,7 +9,7 @@ from .common import outcome_of, is_sample
 def sym_bytes(name,n,ascii_only=False,run=None):
     bs=[z3.BitVec('%s_%d'%(name,i),8) for i in range(n)]
     if ascii_only and run is not None:
-        for b in bs: run.solver.add(z3.ULT(b,0x80))
+        for b in bs: run.add(z3.ULT(b,0x80))
     return bs
 def mv_bytes(m,bs): return [model_value(m,x) for x in bs]
 
